@@ -953,13 +953,57 @@ def applyOpStr (nanNumeric : Bool) (op : String) (l r : Str) : Option Bool :=
   | .unordered => some (op == "!=")
   | .undetermined => none
 
+def Ord3.flip : Ord3 → Ord3
+  | .lt => .gt | .eq => .eq | .gt => .lt
+
+/-- order of two fractions A/D and B/D (D > 0) given as cross-multiplied integers, when they are
+    further apart than 1e-9 relative to the larger of |A|, |B|, D: the float64 the Go code holds is
+    within rounding error (≈1e-13) of the exact fraction, so beyond that margin the float64
+    comparison and the exact one agree; inside it the model does not decide -/
+def cmpApart (a b : Int) (dd : Nat) : Option Ord3 :=
+  let gap := (a - b).natAbs
+  let scale := max (max a.natAbs b.natAbs) dd
+  if gap * 1000000000 > scale then some (if a < b then .lt else .gt) else none
+
+/-- the float64 n/d against ± m·10^e -/
+def cmpFracFin (n : Int) (d : Nat) (neg : Bool) (m : Nat) (e : Int) : Option Ord3 :=
+  let sgn (x : Nat) : Int := if neg then -(x : Int) else (x : Int)
+  if e ≥ 0 then cmpApart n (sgn (m * 10 ^ e.toNat) * (d : Int)) d
+  else cmpApart (n * ((10 ^ (-e).toNat : Nat) : Int)) (sgn m * (d : Int)) (d * 10 ^ (-e).toNat)
+
+/-- A float64 operand (`DateNode.Years`, `Date.Years`: `%v` gives its shortest decimal, which
+    `ParseFloat` reads back as the same float64) against a rendered operand: numeric iff the other
+    side is numeric; `flip`: the float is the right operand. -/
+def applyOpFloat (op : String) (flip : Bool) (n : Int) (d : Nat) (other : Str) : Val :=
+  if d == 0 then .someBool else
+  let decide (o : Option Ord3) : Val :=
+    match o with
+    | some o =>
+      match opTruth Generated.Query.opTruthNumeric op (if flip then o.flip else o) with
+      | some x => .bool x
+      | none => .someBool
+    | none => .someBool
+  match parseNum other with
+  | some (.fin neg m e) => decide (cmpFracFin n d neg m e)
+  | some (.inf neg) => decide (some (if neg then .gt else .lt))
+  | _ => .someBool          -- NaN, beyond the exact number model, or text (compared with the float's decimal text)
+
 def applyOp (op : String) (l r : Val) : Val :=
   match fmtV l, fmtV r with
   | some a, some b =>
     match applyOpStr Generated.Query.nanIsNumeric op a b with
     | some x => .bool x
     | none => .someBool
-  | _, _ => .someBool     -- operands rendered through fmt's %v of pointers, slices, maps: always a bool, value not modelled
+  | fl, fr =>
+    match l, r, fl, fr with
+    | .float n d, _, none, some b => applyOpFloat op false n d b
+    | _, .float n d, some a, none => applyOpFloat op true n d a
+    | .float n d, .float n' d', none, none =>
+      if d == 0 || d' == 0 then .someBool else
+      match cmpApart (n * (d' : Int)) (n' * (d : Int)) (d * d') with
+      | some o => (match opTruth Generated.Query.opTruthNumeric op o with | some x => .bool x | none => .someBool)
+      | none => .someBool
+    | _, _, _, _ => .someBool     -- operands rendered through fmt's %v of pointers, structs: always a bool, value not modelled
 
 /-! ### Mapping over (nested) slices -/
 
